@@ -114,6 +114,8 @@ def public_members(cls):
         if name.startswith("_"):
             continue
         m = inspect.getattr_static(cls, name)
+        if isinstance(m, (staticmethod, classmethod)):
+            m = m.__func__
         if isinstance(m, property) or inspect.isfunction(m):
             out[name] = m
     return out
@@ -160,6 +162,16 @@ class ExtTaskPool(TaskPool):
 
     def _hidden(self) -> None:
         """Not public."""
+
+    @staticmethod
+    def build_info(verbose: bool = False) -> str:
+        """Returns a static description of the build."""
+        return "build-1" + ("-verbose" if verbose else "")
+
+    @classmethod
+    def describe_class(cls, short: bool = False) -> str:
+        """Describes the pool class."""
+        return cls.__name__ + ("" if short else " (a task pool)")
 
     def undocumented(self, prefix: str = "snap") -> str:
         return prefix + str(self.num_running)
